@@ -111,6 +111,49 @@ def get_local_key(key, data):
     return call(f)
 
 
+def lan_read(version, key, segments):
+    """LAN._read() on a connection of the given version whose protocol object has received the segments: the level at which
+    LAN.send sees a reply -> (code, frame | exc)"""
+    import asyncio
+    L = install()
+    lan_ = L.LAN("10.0.0.1", 6444, 123456)
+    p = L._LanProtocolV3() if version == 3 else L._LanProtocol()
+    if version == 3:
+        p._local_key = bytes(key) if key else None
+    lan_._protocol = p
+    lan_._protocol_version = version
+    for s_ in segments:
+        p.data_received(bytes(s_))
+    loop = asyncio.new_event_loop()
+    try:
+        return call(lambda: list(loop.run_until_complete(lan_._read(timeout=0))))
+    finally:
+        loop.close()
+
+
+def reassemble_gaps(segments, gap_s):
+    """like reassemble, but every clock the interpreter offers (time.monotonic / time.time / perf_counter and the module's
+    datetime) jumps by gap_s seconds between two segments"""
+    import time as _time
+    from unittest import mock
+    p = v3_proto(None)
+    t = {"now": 1000.0}
+    base = FakeClock.current
+    with mock.patch.object(_time, "monotonic", lambda: t["now"]), mock.patch.object(_time, "time", lambda: 1.7e9 + t["now"]), \
+            mock.patch.object(_time, "perf_counter", lambda: t["now"]):
+        try:
+            for s_ in segments:
+                p.data_received(bytes(s_))
+                t["now"] += gap_s
+                FakeClock.current = FakeClock.current + _dt.timedelta(seconds=gap_s)
+        finally:
+            FakeClock.current = base
+    q = []
+    while not p._queue.empty():
+        q.append(list(p._queue.get_nowait()))
+    return list(p._buffer), q
+
+
 def reassemble(segments, buf0=()):
     """-> (buffer, [packets]) after feeding the segments to _LanProtocolV3.data_received"""
     p = v3_proto(None)
